@@ -106,6 +106,15 @@ let process line =
       let s = apply_sets c (fresh cs (z_of_int c)) sets in
       let p = function Ok z -> string_of_z z | Err e -> "err:" ^ err_name e in
       "S ok osz=" ^ p (osize cs (z_of_int c) s) ^ " hsz=" ^ p (hsize cs (z_of_int c) s)
+  | "C" :: code :: _ ->
+      (* File::createObject(code): class and the type code the new object carries *)
+      let code = z_of_string code in
+      let rec look = function [] -> None | (k, v) :: r -> if Z.eqb k code then Some v else look r in
+      (match look factory_table with
+       | Some c when int_of_z c > 0 ->
+           let ty = (match fresh cs c fid_objectType with VInt z -> string_of_z z | _ -> "?") in
+           "C ok cls=" ^ string_of_z c ^ " type=" ^ ty
+       | _ -> "C ok cls=0 type=-")
   | [""] | [] -> ""
   | _ -> "? bad case"
 
